@@ -100,7 +100,11 @@ CLAIMS = {
     text='Theorems of C07.v (12) over the transition-system model Par.v of read_parallel_init (threads, two bounded channels, job pool; one step per '
          'channel/closure/pool operation), for ALL thread counts >= 1, queue lengths >= 1, fill scripts, consumers and ALL schedules (induction over runs): content '
          'and token conservation (C07_inv), out = work(content) (C07_pairing), at most once, exactly once for a draining consumer, file order with one worker, '
-         'end marker only after all jobs; per-record zips (C07_work_zip: old vector shorter/equal/longer). Tie: the TEXT of /repo/src/parallel.rs runs on '
+         'end marker only after all jobs; per-record zips (C07_work_zip: old vector shorter/equal/longer). C07r.v (10): the per-record layer composed with the protocol and the readers - '
+         'for all schedules, thread counts, queue lengths and WHATEVER the recycled output vectors contained, the consumer closure of parallel_fasta / parallel_fastq sees every record of every batch '
+         'exactly once with the output computed for that very record (in file order with one worker); over a real reader: exactly the leading records of the Spec stream; early exit and '
+         'erroring readers: at most once, always with its own output; the recycled vectors are tracked through the event traces (C07_tracked_*), and the hypothesis that the work closure '
+         'overwrites its slot is shown necessary. Tie: the TEXT of /repo/src/parallel.rs runs on '
          'shuttle shims under seeded random/PCT schedules and every event log must be a trace of the model (Par.accepts, extracted); black-box runs of the real '
          'functions (real threads) check every record arrives once with its own output.',
     technique='Coq invariant proofs over a protocol model (all schedules) + trace acceptance of shuttle-scheduled runs of the real source text + black-box runs',
